@@ -67,6 +67,12 @@ def stepPure (toks : List String) : String :=
 def step (st : DState) (line : String) : DState × String :=
   match (line.dropEndWhile (· == '\n')).toString.splitOn " " with
   | ["n", "reset", sdh] => ({ st with node := { client := { sdh := sdh == "1" } } }, "ok")
+  | ["n", "assert-empty"] =>
+    let c := st.node.client
+    let sv := st.node.server
+    let empty := c.peers.isEmpty && c.waiters.isEmpty && c.wantlist.cids.isEmpty && c.abort.isEmpty && c.tasks.isEmpty
+      && c.newBlocks.isEmpty && c.queue.isEmpty && sv.wl.isEmpty && sv.waiting.isEmpty && sv.outq.isEmpty && sv.tasks.isEmpty
+    (st, if empty then "empty" else s!"retained:{Driver.NodeIO.showState st.node}")
   | "n" :: toks =>
     match Driver.NodeIO.parseOp toks st.node.now with
     | none => (st, "bad-op")
